@@ -8,6 +8,7 @@ import PRV.Driver.C10
 import PRV.Driver.C08
 import PRV.Driver.C08m
 import PRV.Driver.C09
+import PRV.Driver.C10ctl
 import PRV.Driver.C20
 import PRV.Driver.C11
 import PRV.Driver.C07
@@ -41,6 +42,7 @@ def main (args : List String) : IO UInt32 := do
   | ["spec", "c08"] => run C08m.machine; return 0
   | ["monitor", "c08"] => runMonitor C08.monitor; return 0
   | ["monitor", "c09"] => runMonitor C09.monitor; return 0
+  | ["monitor", "c10ctl"] => runMonitor C10ctl.monitor; return 0
   | ["model", "c10"] => run C10.machine; return 0
   | ["monitor", "c10"] => runMonitor C10.monitor; return 0
   | ["monitor", "c20"] => runMonitor C20.monitor; return 0
